@@ -14,7 +14,11 @@ var c14Kinds = []int{0, 1, 2, 3, 4, 5, 6, 7, 8, 9, 10, 11, 12, 13, 14, 15, 16, 1
 
 func genC14(seed int64, tier string) *Plan {
 	if seed%4 == 3 {
-		// a fourth of the histories exercise the peer configuration (replicators, P2P collections)
+		// a fourth of the histories exercise the peer configuration (replicators, P2P collections) ...
+		if seed%8 == 7 {
+			// ... half of them the replication duties a restarted sender still has
+			return genC14Sender(seed, tier)
+		}
 		return genC14Peer(seed, tier)
 	}
 	r := newRng(seed, 14)
@@ -54,6 +58,10 @@ func genC14(seed int64, tier string) *Plan {
 func runC14(p *Plan, res *Result) {
 	if p.cfg("peer", 0) == 1 {
 		runC14Peer(p, res)
+		return
+	}
+	if p.cfg("peer", 0) == 2 {
+		runC15As(p, res, "C14")
 		return
 	}
 	ctx, cancel := context.WithCancel(context.Background())
